@@ -28,14 +28,15 @@ func (r *Rng) Chance(percent int) bool { return r.Intn(100) < percent }
 
 // Stream describes a family of scripts: which components exist, capacities and op weights.
 type Stream struct {
-	Name     string
-	Codes    [][]int // candidate component layouts (type code per ID)
-	Caps     [][2]int
-	Ops      int // operations per script
-	Weights  map[string]int
-	Invalid  int  // percent of deliberately invalid calls
-	MaxEnt   int  // soft cap on alive entities
-	WithDump bool // compare internals after every step
+	Name      string
+	Codes     [][]int // candidate component layouts (type code per ID)
+	Caps      [][2]int
+	Ops       int // operations per script
+	Weights   map[string]int
+	Invalid   int  // percent of deliberately invalid calls
+	MaxEnt    int  // soft cap on alive entities
+	WithDump  bool // compare internals after every step
+	Scenarios int  // percent chance per operation to start a scenario (sim/scenario.go)
 }
 
 var layoutSmall = []int{CodeA, CodeB, CodeC, CodeR1, CodeR2, CodeN1, CodeZ0, CodeRZ}
@@ -78,30 +79,30 @@ func weights(over map[string]int) map[string]int {
 // Streams are the generator families referred to by the per-property checks.
 var Streams = map[string]Stream{
 	"store": {Name: "store", Codes: [][]int{layoutSmall, layoutPlain, layoutWide()}, Caps: [][2]int{{1, 1}, {2, 1}, {3, 2}, {8, 4}}, Ops: 60,
-		Weights: weights(map[string]int{"obsnew": 0, "obsreg": 0, "obsunreg": 0, "emit": 0}), Invalid: 4, MaxEnt: 24, WithDump: true},
+		Weights: weights(map[string]int{"obsnew": 0, "obsreg": 0, "obsunreg": 0, "emit": 0}), Invalid: 4, MaxEnt: 24, WithDump: true, Scenarios: 2},
 	"relations": {Name: "relations", Codes: [][]int{layoutRel, layoutSmall}, Caps: [][2]int{{1, 1}, {2, 2}, {4, 1}}, Ops: 70,
 		Weights: weights(map[string]int{"unewrel": 16, "addrel": 10, "setrel": 14, "removeentity": 12, "removeentities": 6, "setrelbatch": 6, "shrink": 5,
-			"obsnew": 0, "obsreg": 0, "obsunreg": 0, "emit": 0, "mapset": 1}), Invalid: 3, MaxEnt: 20, WithDump: true},
+			"obsnew": 0, "obsreg": 0, "obsunreg": 0, "emit": 0, "mapset": 1}), Invalid: 3, MaxEnt: 20, WithDump: true, Scenarios: 5},
 	"cache": {Name: "cache", Codes: [][]int{layoutSmall, layoutRel}, Caps: [][2]int{{1, 1}, {2, 2}}, Ops: 70,
 		Weights: weights(map[string]int{"filternew": 10, "register": 10, "unregister": 7, "queryall": 14, "queryopen": 5, "querynext": 8, "queryclose": 5,
-			"removeentity": 10, "shrink": 5, "reset": 2, "obsnew": 0, "obsreg": 0, "obsunreg": 0, "emit": 0}), Invalid: 3, MaxEnt: 20, WithDump: true},
+			"removeentity": 10, "shrink": 5, "reset": 2, "obsnew": 0, "obsreg": 0, "obsunreg": 0, "emit": 0}), Invalid: 3, MaxEnt: 20, WithDump: true, Scenarios: 5},
 	"batch": {Name: "batch", Codes: [][]int{layoutSmall, layoutRel}, Caps: [][2]int{{1, 1}, {2, 2}, {8, 4}}, Ops: 60,
 		Weights: weights(map[string]int{"newbatch": 8, "exbatch": 14, "setrelbatch": 8, "removeentities": 8, "newentities": 6, "filternew": 8,
-			"obsnew": 2, "obsreg": 2}), Invalid: 2, MaxEnt: 30, WithDump: true},
+			"obsnew": 2, "obsreg": 2}), Invalid: 2, MaxEnt: 30, WithDump: true, Scenarios: 6},
 	"lock": {Name: "lock", Codes: [][]int{layoutSmall}, Caps: [][2]int{{2, 2}}, Ops: 80,
 		Weights: weights(map[string]int{"queryopen": 16, "querynext": 14, "queryclose": 12, "querycount": 3, "filternew": 6, "write": 6, "mapset": 4, "emit": 3}), Invalid: 2, MaxEnt: 12, WithDump: true},
 	"observers": {Name: "observers", Codes: [][]int{layoutSmall, layoutRel}, Caps: [][2]int{{1, 1}, {4, 2}}, Ops: 70,
-		Weights: weights(map[string]int{"obsnew": 10, "obsreg": 10, "obsunreg": 5, "emit": 6, "mapset": 6, "exbatch": 6, "setrelbatch": 4, "newbatch": 4, "removeentities": 4}), Invalid: 2, MaxEnt: 16, WithDump: true},
+		Weights: weights(map[string]int{"obsnew": 10, "obsreg": 10, "obsunreg": 5, "emit": 6, "mapset": 6, "exbatch": 6, "setrelbatch": 4, "newbatch": 4, "removeentities": 4}), Invalid: 2, MaxEnt: 16, WithDump: true, Scenarios: 6},
 	"misuse": {Name: "misuse", Codes: [][]int{layoutSmall, layoutRel}, Caps: [][2]int{{1, 1}, {2, 2}}, Ops: 60,
-		Weights: weights(map[string]int{"probe": 12, "queryopen": 4, "queryclose": 4}), Invalid: 35, MaxEnt: 14, WithDump: true},
+		Weights: weights(map[string]int{"probe": 12, "queryopen": 4, "queryclose": 4}), Invalid: 35, MaxEnt: 14, WithDump: true, Scenarios: 2},
 	"reset": {Name: "reset", Codes: [][]int{layoutSmall}, Caps: [][2]int{{1, 1}, {3, 2}}, Ops: 80,
-		Weights: weights(map[string]int{"reset": 5, "obsnew": 4, "obsreg": 5, "register": 5, "filternew": 6}), Invalid: 2, MaxEnt: 16, WithDump: true},
+		Weights: weights(map[string]int{"reset": 5, "obsnew": 4, "obsreg": 5, "register": 5, "filternew": 6}), Invalid: 2, MaxEnt: 16, WithDump: true, Scenarios: 3},
 	"shrink": {Name: "shrink", Codes: [][]int{layoutSmall, layoutRel}, Caps: [][2]int{{1, 1}, {2, 1}, {8, 2}}, Ops: 70,
-		Weights: weights(map[string]int{"shrink": 12, "newbatch": 6, "newentities": 6, "removeentities": 6, "removeentity": 12, "register": 5, "stats": 4}), Invalid: 2, MaxEnt: 40, WithDump: true},
+		Weights: weights(map[string]int{"shrink": 12, "newbatch": 6, "newentities": 6, "removeentities": 6, "removeentity": 12, "register": 5, "stats": 4}), Invalid: 2, MaxEnt: 40, WithDump: true, Scenarios: 5},
 	"stats": {Name: "stats", Codes: [][]int{layoutSmall, layoutRel}, Caps: [][2]int{{1, 1}, {4, 2}}, Ops: 60,
-		Weights: weights(map[string]int{"stats": 14, "shrink": 5, "reset": 2}), Invalid: 2, MaxEnt: 24, WithDump: true},
+		Weights: weights(map[string]int{"stats": 14, "shrink": 5, "reset": 2}), Invalid: 2, MaxEnt: 24, WithDump: true, Scenarios: 3},
 	"query": {Name: "query", Codes: [][]int{layoutSmall, layoutRel, layoutWide()}, Caps: [][2]int{{1, 1}, {4, 2}}, Ops: 60,
-		Weights: weights(map[string]int{"filternew": 12, "queryall": 20, "queryopen": 4, "querynext": 8, "querycount": 5, "queryat": 6, "queryentity": 3, "register": 4}), Invalid: 3, MaxEnt: 24, WithDump: true},
+		Weights: weights(map[string]int{"filternew": 12, "queryall": 20, "queryopen": 4, "querynext": 8, "querycount": 5, "queryat": 6, "queryentity": 3, "register": 4}), Invalid: 3, MaxEnt: 24, WithDump: true, Scenarios: 3},
 }
 
 // Gen produces operation lines from the live state of a Sim.
@@ -113,10 +114,12 @@ type Gen struct {
 	openQueries map[int]bool
 	registered  map[int]bool // filters
 	epoch       int          // handles issued before the last Reset are foreign to the world
+	queue       []lazyOp     // pending scenario operations
+	Scenarios   int          // percent chance per operation to start a scenario
 }
 
 func NewGen(r *Rng, s *Sim, st Stream) *Gen {
-	return &Gen{R: r, S: s, St: st, openQueries: map[int]bool{}, registered: map[int]bool{}}
+	return &Gen{R: r, S: s, St: st, openQueries: map[int]bool{}, registered: map[int]bool{}, Scenarios: st.Scenarios}
 }
 
 // Epoch is the index of the first handle issued since the last successful Reset.
@@ -398,6 +401,19 @@ func (g *Gen) valsFor(comps []int) [][2]int64 {
 
 // NextOp returns the next operation line, or nil if the chosen kind is not applicable now.
 func (g *Gen) NextOp() []int64 {
+	for len(g.queue) > 0 {
+		op := g.queue[0]
+		g.queue = g.queue[1:]
+		if l := op(); l != nil {
+			return l
+		}
+	}
+	if g.Scenarios > 0 && g.R.Chance(g.Scenarios) && !g.tooMany() {
+		g.Scenario()
+		if len(g.queue) > 0 {
+			return g.NextOp()
+		}
+	}
 	kinds := make([]string, 0, len(g.St.Weights))
 	for k := range g.St.Weights {
 		kinds = append(kinds, k)
